@@ -23,12 +23,19 @@ pub enum SearchApi {
     ColdBackend,
     ColdBackendBatch,
     Timed,
+    /// timed search with the slow-tier fault: the named tiers' blocking searches are held back past their timeout
+    TimedStall { hot: bool, cold: bool },
 }
 
 #[derive(Clone, Debug, PartialEq, Serialize, Deserialize)]
 pub enum Step {
     Api(ApiOp),
     Search { q: Vec<u32>, k: usize, scope: u64, api: SearchApi },
+    /// drift: recent-write-tier entries planted through the public hot_tier() handle (C04's poke) for ids that have no
+    /// canonical record, or with a vector that differs from the canonical one; the next drain repairs the former into
+    /// the canonical store (which C04 records as a known finding; here only the query-result cache is judged) and
+    /// keeps the canonical version of the latter
+    Drift { plants: Vec<(u64, Vec<u32>, Meta)> },
 }
 
 #[derive(Clone, Debug, PartialEq, Serialize, Deserialize)]
@@ -145,10 +152,26 @@ pub fn gen_plan(seed: u64, run: u64, tier: &str) -> Plan {
                 6..=7 => SearchApi::Batch,
                 8 => SearchApi::ColdBackend,
                 9 => SearchApi::ColdBackendBatch,
-                _ => SearchApi::Timed,
+                10 => SearchApi::Timed,
+                _ => match rng.below(4) {
+                    0 => SearchApi::Timed,
+                    1 => SearchApi::TimedStall { hot: true, cold: false },
+                    2 => SearchApi::TimedStall { hot: false, cold: true },
+                    _ => SearchApi::TimedStall { hot: true, cold: true },
+                },
             };
             let q = gen_query(&mut rng, cfg.dim, &mut pool, &mut salt);
-            steps.push(Step::Search { q, k: *rng.pick(&[1usize, 2, 2, 3, 4, 5, 10, 100, 1000]), scope: *rng.pick(&[0u64, 0, 1, 2]), api });
+            let kq = *rng.pick(&[1usize, 2, 2, 3, 4, 5, 10, 100, 1000]);
+            let sc = *rng.pick(&[0u64, 0, 1, 2]);
+            // a third of the slow-tier searches come as a burst of three (the breaker threshold), so that the
+            // breaker-open and, after a gap of a simulated minute, the half-open paths are part of the history
+            if matches!(api, SearchApi::TimedStall { .. }) && rng.chance(1, 3) {
+                for _ in 0..2 {
+                    let qb = gen_query(&mut rng, cfg.dim, &mut pool, &mut salt);
+                    steps.push(Step::Search { q: qb, k: kq, scope: sc, api: api.clone() });
+                }
+            }
+            steps.push(Step::Search { q, k: kq, scope: sc, api });
         } else {
             let id = rng.below(universe);
             let op = match rng.below(100) {
@@ -182,6 +205,30 @@ pub fn gen_plan(seed: u64, run: u64, tier: &str) -> Plan {
                 94..=96 => ApiOp::Gap { ns: *rng.pick(&[1_000_000u64, 61_000_000_000]) },
                 _ => ApiOp::Query { id },
             };
+            // drift repairs: 1-3 planted mirror entries (near a pooled query, random, or a vector the index refuses),
+            // mostly drained right away so that repairs that succeed and repairs that fail share one drain
+            if matches!(op, ApiOp::Query { .. } | ApiOp::Gap { .. }) && rng.chance(1, 2) {
+                let mut plants = Vec::new();
+                for _ in 0..rng.range(1, 3) {
+                    w += 1;
+                    let pid = rng.below(universe + 2);
+                    let v: Vec<f32> = match rng.below(4) {
+                        0 => vec![0.0; cfg.dim],
+                        1 | 2 if !pool.is_empty() => {
+                            let base = unbits(&pool[rng.below(pool.len() as u64) as usize]);
+                            let eps = *rng.pick(&[1e-3f32, 0.02, 0.1]);
+                            base.iter().enumerate().map(|(i, x)| x + if i % 2 == 0 { eps } else { -eps }).collect()
+                        }
+                        _ => gen_vector(&mut rng, cfg.dim, w),
+                    };
+                    plants.push((pid, bits(&v), gen_meta(&mut rng, w)));
+                }
+                steps.push(Step::Drift { plants });
+                if rng.chance(3, 4) {
+                    steps.push(Step::Api(ApiOp::Flush { force: true }));
+                }
+                continue;
+            }
             steps.push(Step::Api(op));
         }
     }
@@ -296,11 +343,29 @@ fn execute_inner(plan: &Plan) -> Exec {
     let mut recent: BTreeSet<u64> = BTreeSet::new(); // latest write went through insert and no drain since
     let mut stored: Vec<Stored> = Vec::new();
     let mut writes: Vec<WriteRec> = Vec::new();
-    let rt = tokio::runtime::Builder::new_current_thread().enable_time().start_paused(true).build().expect("runtime");
     let mut probe = |ex: &mut Exec, k: &str| *ex.probes.entry(k.to_string()).or_insert(0) += 1;
+    // planted mirror entries without canonical record that a drain may still repair into the canonical store
+    let mut outstanding: BTreeMap<u64, Meta> = BTreeMap::new();
+    let mut planted_ids: BTreeSet<u64> = BTreeSet::new();
     for (k, step) in plan.steps.iter().enumerate() {
         let flushes_before = b.engine.hot_tier().stats().total_flushes;
         match step {
+            Step::Drift { plants } => {
+                for (id, vec, meta) in plants {
+                    let emb = unbits(vec);
+                    let version = b.engine.cold_tier().fetch_document_with_coherence(*id).map(|(_, t)| t.version + 1).unwrap_or(1);
+                    let tok = kyrodb_engine::VectorCoherenceToken::for_embedding(version, &emb);
+                    b.engine.hot_tier().insert_with_coherence(*id, emb, to_hash(meta), tok);
+                    if model.contains_key(id) {
+                        probe(&mut ex, "drift_planted_divergent_mirror");
+                    } else {
+                        outstanding.insert(*id, meta.clone());
+                        probe(&mut ex, "drift_planted_mirror_only_record");
+                    }
+                    recent.remove(id);
+                    planted_ids.insert(*id);
+                }
+            }
             Step::Api(op) => {
                 let res = exec(&b, op);
                 match (op, &res) {
@@ -353,9 +418,14 @@ fn execute_inner(plan: &Plan) -> Exec {
                 let qf = unbits(q);
                 // residency in the recent-write tier is read BEFORE the search (a search may discard mirror entries)
                 let resident_before: BTreeSet<u64> = recent.iter().copied().filter(|id| b.engine.hot_tier().exists(*id)).collect();
+                // a planted mirror entry that is still resident takes one of the recent-write tier's 2k candidate slots
+                // and is then discarded: the completeness of recent writes is not judged while one is there (the
+                // statement promises nothing about a tampered mirror; soundness and the cache clauses stay in force)
+                let planted_resident = planted_ids.iter().any(|id| !recent.contains(id) && b.engine.hot_tier().exists(*id));
                 // responses: (results, path, label)
                 let mut responses: Vec<(Vec<(u64, f32)>, Option<SearchExecutionPath>, Vec<f32>)> = Vec::new();
                 let mut failed = None;
+                let mut timed_degr: Option<Degradation> = None;
                 let to_pairs = |r: Vec<kyrodb_engine::SearchResult>| -> Vec<(u64, f32)> { r.into_iter().map(|x| (x.doc_id, x.distance)).collect() };
                 match api {
                     SearchApi::Single => match b.engine.knn_search_with_ef_detailed_scoped(&qf, *kk, None, *scope) {
@@ -391,32 +461,45 @@ fn execute_inner(plan: &Plan) -> Exec {
                         }
                         Err(e) => failed = Some(format!("{:#}", e)),
                     },
-                    SearchApi::Timed => {
-                        let eng = std::sync::Arc::clone(&b.engine);
-                        let qq = qf.clone();
-                        let (kk2, sc) = (*kk, *scope);
+                    SearchApi::Timed | SearchApi::TimedStall { .. } => {
+                        let stall = match api {
+                            SearchApi::TimedStall { hot, cold } => Stall { hot: *hot, cold: *cold },
+                            _ => Stall::default(),
+                        };
                         let _fz = simlibc::FreezeClock::new();
-                        match rt.block_on(async move { eng.knn_search_with_timeouts_with_ef_scoped(&qq, kk2, None, sc).await }) {
-                            Ok((r, p)) => responses.push((to_pairs(r), Some(p), qf.clone())),
-                            Err(e) => failed = Some(format!("{:#}", e)),
+                        let (r, d) = timed_search(&b, &qf, *kk, None, *scope, stall);
+                        if d.threads_stalled > 0 {
+                            probe(&mut ex, "slow_tier_thread_stalled");
                         }
+                        if d.any() {
+                            probe(&mut ex, &format!("timed_degraded_{}", d.label()));
+                        }
+                        match r {
+                            Ok((r, p)) => responses.push((to_pairs(r), Some(p), qf.clone())),
+                            Err(e) => failed = Some(e),
+                        }
+                        timed_degr = Some(d);
                     }
                 }
                 if let Some(e) = &failed {
                     probe(&mut ex, if e.contains("saturated") { "load_shed" } else if e.contains("norm is zero") || e.contains("dimension") { "query_rejected" } else { "search_error" });
                 }
-                let api_name = format!("{:?}", api).split('(').next().unwrap_or("?").to_string();
+                let api_name = format!("{:?}", api).split(|c: char| !c.is_alphanumeric()).next().unwrap_or("?").to_string();
                 for (res, path, used_q) in responses {
                     ex.searches += 1;
                     let pname = path.map(path_name).unwrap_or("backend");
                     probe(&mut ex, &format!("path_{}", pname));
                     ex.shape = (ex.shape ^ (res.len() as u64) ^ ((pname.len() as u64) << 8)).wrapping_mul(0x100000001b3);
-                    let degraded = matches!(path, Some(SearchExecutionPath::Degraded));
-                    let timed = matches!(api, SearchApi::Timed);
+                    // a timed response is degraded when the engine's own counters say so (timeout, open breaker,
+                    // worker or queue saturation, partial result): the execution path alone does not tell
+                    let degraded = matches!(path, Some(SearchExecutionPath::Degraded)) || timed_degr.as_ref().map(|d| d.any()).unwrap_or(false);
                     let mut facts = BTreeMap::new();
                     facts.insert("api".to_string(), api_name.clone());
                     facts.insert("path".to_string(), pname.to_string());
                     facts.insert("metric".to_string(), metric.to_string());
+                    if let Some(d) = &timed_degr {
+                        facts.insert("degradation".to_string(), d.label());
+                    }
                     let mut bad = |ex: &mut Exec, prop: &'static str, clause: &str, msg: String, extra: &[(&str, String)]| {
                         let mut f = facts.clone();
                         for (a, b2) in extra {
@@ -489,7 +572,7 @@ fn execute_inner(plan: &Plan) -> Exec {
                         }
                     }
                     // ---- C06 completeness for acknowledged, not yet drained writes
-                    if path.is_some() && !degraded && !timed {
+                    if path.is_some() && !degraded && !planted_resident {
                         let kth = if res.len() >= *kk { res.last().map(|x| x.1 as f64) } else { None };
                         for id in &recent {
                             if uniq.contains(id) || !resident_before.contains(id) {
@@ -533,10 +616,10 @@ fn execute_inner(plan: &Plan) -> Exec {
                                     let mut why = None;
                                     match w.kind {
                                         "delete" if in_r => why = Some("document_deleted_since"),
-                                        "insert" | "bulk" if in_r => why = Some("document_overwritten_since"),
+                                        "insert" | "bulk" | "repair" if in_r => why = Some("document_overwritten_since"),
                                         "meta" if in_r => why = Some("metadata_updated_since"),
                                         "bulk" => why = Some("bulk_load_since"),
-                                        "insert" => {
+                                        "insert" | "repair" => {
                                             if let Some(v) = &w.vec {
                                                 let (_, hi) = ref_distance(metric, &sq, v);
                                                 let full = s.results.len() >= s.k;
@@ -571,10 +654,29 @@ fn execute_inner(plan: &Plan) -> Exec {
                                 }
                             }
                         }
-                    } else if path.is_some() && matches!(api, SearchApi::Single | SearchApi::Batch | SearchApi::Timed) && !degraded {
+                    } else if path.is_some() && matches!(api, SearchApi::Single | SearchApi::Batch | SearchApi::Timed | SearchApi::TimedStall { .. }) && !degraded {
                         // what the engine may have stored
                         stored.push(Stored { scope: *scope, q: bits(&used_q), k: *kk, results: res.iter().map(|x| (x.0, x.1.to_bits())).collect(), step: k });
                     }
+                }
+            }
+        }
+        // drift repairs: a planted mirror-only record that a drain wrote into the canonical store is a document now
+        if !outstanding.is_empty() {
+            let ids: Vec<u64> = outstanding.keys().copied().collect();
+            for id in ids {
+                if model.contains_key(&id) {
+                    // an acknowledged write of the history has taken the id over
+                    outstanding.remove(&id);
+                } else if let Some(stored_v) = b.engine.cold_tier().fetch_document(id) {
+                    let meta = b.engine.cold_tier().fetch_metadata(id).map(|m| to_btree(&m)).unwrap_or_default();
+                    writes.push(WriteRec { step: k, id, kind: "repair", vec: Some(stored_v.clone()) });
+                    model.insert(id, (bits(&stored_v), meta));
+                    outstanding.remove(&id);
+                    probe(&mut ex, "drift_repaired_into_canonical_store");
+                } else if !b.engine.hot_tier().exists(id) {
+                    outstanding.remove(&id);
+                    probe(&mut ex, "drift_entry_discarded");
                 }
             }
         }
@@ -582,7 +684,6 @@ fn execute_inner(plan: &Plan) -> Exec {
             break;
         }
     }
-    drop(rt);
     drop(b);
     if let Some(r) = root {
         simlibc::unregister_root(r);
